@@ -118,6 +118,10 @@ def run_exact(c, tolerant=False):
   out = filt(list(x), memory=mem, zero=zero)
   if not isinstance(out, Stream):
     raise Violation("filter call returned %s, not a Stream" % type(out).__name__)
+  if c["mem"] in ("list", "long") and mem:
+    # the memory is what was *given*: what the caller does to the list afterwards is irrelevant
+    mem.reverse()
+    mem[:] = [v + 7 for v in mem]
   got = list(out)
   if c["mem"] == "call" and seen != [lm]:
     raise Violation("callable memory asked for sizes %r, filter order is %d" % (seen, lm))
@@ -262,6 +266,122 @@ def run_noncausal(c):
                                                            "shifted" if sh else "unshifted"]}
 
 
+# ------------------------------------------------------------------ exact types / value-equal twins
+def strat_twins(tier):
+  ic = st.integers(-4, 4)
+  fx = st.fractions(min_value=-4, max_value=4, max_denominator=9)
+  return st.fixed_dictionaries(dict(
+    b=st.lists(ic, min_size=1, max_size=4), a0=st.sampled_from([1, -1, 2, -3, 1, 4]),
+    a=st.lists(ic, max_size=3),
+    x=st.one_of(st.lists(fx, min_size=3, max_size=9),
+                st.lists(st.integers(2 ** 54, 2 ** 56), min_size=3, max_size=6)),
+    first=st.sampled_from(["float twin first", "float twin first", "int first", "alone"]),
+    memv=st.lists(fx, min_size=4, max_size=4), use_mem=st.booleans(),
+    route=st.sampled_from(["list", "dict", "zexpr"])))
+
+
+def run_twins(c):
+  """Integer coefficients on plain Fractions / big ints stay exact, whatever value-equal filter
+  (same numbers spelled as floats) was built and run before in the same process."""
+  b = dict(enumerate(c["b"]))
+  a = {k + 1: v for k, v in enumerate(c["a"])}
+  a[0] = c["a0"]
+  nzb = {k: v for k, v in b.items() if v != 0}
+  nza = {k: v for k, v in a.items() if v != 0}
+  lm = max(nza)
+  x = list(c["x"])
+  ints = isinstance(x[0], int)
+  if ints and abs(a[0]) != 1:
+    a[0] = nza[0] = 1 if a[0] > 0 else -1      # int / int would be Python's float division
+  if not nzb and lm == 0:
+    return {"nontrivial": False, "labels": ["degenerate"]}
+  mem = list(c["memv"][:lm]) if c["use_mem"] and not ints else None
+  if ints and c["use_mem"]:
+    mem = [int(v * 63) for v in c["memv"][:lm]]
+  # an int zero with a gain other than +-1 would make "0 / 2" Python's float division (0.0) and
+  # contaminate everything after it: exact samples get an exact zero
+  zero = 0 if ints else F(0)
+  fl = lambda d: {k: float(v) for k, v in d.items()}
+
+  def run(bb, aa):
+    return list(build(bb, aa, c["route"])(list(x), memory=None if mem is None else list(mem), zero=zero))
+  order = c["first"]
+  if order == "float twin first":
+    run(fl(b), fl(a))
+  got = run(b, a)
+  if order == "int first":
+    run(fl(b), fl(a))
+    got2 = run(b, a)
+    if got2 != got or [type(v) for v in got2] != [type(v) for v in got]:
+      raise Violation("the same integer filter gave %r, then %r after a float-spelled twin ran" % (got, got2))
+  exp = diffeq_ref(nzb, nza, x, 0, mem)
+  for n, (g, e) in enumerate(zip(got, exp)):
+    if not (g == e) or (isinstance(g, float) and not float(g).is_integer()):
+      raise Violation("y[%d] = %r, expected exactly %r: integer coefficients b=%r a=%r on exact samples %r "
+                      "(history: %s)" % (n, g, e, nzb, nza, x, order))
+  if len(got) != len(x):
+    raise Violation("%d outputs for %d inputs" % (len(got), len(x)))
+  return {"nontrivial": lm >= 1 and len(x) > lm, "labels": [order, "big ints" if ints else "Fractions"]}
+
+
+# ------------------------------------------------------------------ complex coefficients
+CPLX = [1j, -1j, 0.6 + 0.8j, -0.6 + 0.8j, 0.8 - 0.6j, 2j, 1 + 1j, 0.5j, -1 + 0j, 1 + 0j, 0.25 - 0.5j]
+
+
+def strat_complex(tier):
+  cc = st.one_of(st.sampled_from(CPLX), st.sampled_from(CPLX), st.integers(-2, 2))
+  xs = st.integers(-16, 16).map(lambda v: v / 4.)
+  return st.fixed_dictionaries(dict(
+    b=st.lists(cc, min_size=1, max_size=3), a0=st.one_of(st.sampled_from(CPLX + [1, -1, 2]), st.just(1)),
+    a=st.lists(cc, max_size=2), x=st.lists(st.one_of(xs, st.tuples(xs, xs).map(lambda t: complex(*t))),
+                                           min_size=2, max_size=8),
+    memv=st.lists(xs, min_size=3, max_size=3), use_mem=st.booleans(),
+    route=st.sampled_from(["list", "dict"])))
+
+
+def run_complex(c):
+  b = dict(enumerate(c["b"]))
+  a = {k + 1: v for k, v in enumerate(c["a"])}
+  a[0] = c["a0"]
+  nzb = {k: v for k, v in b.items() if v != 0}
+  nza = {k: v for k, v in a.items() if v != 0}
+  lm = max(nza)
+  if not nzb and lm == 0:
+    return {"nontrivial": False, "labels": ["degenerate"]}
+  x = list(c["x"])
+  mem = list(c["memv"][:lm]) if c["use_mem"] else None
+  got = list(build(b, a, c["route"])(list(x), memory=None if mem is None else list(mem), zero=0.))
+  # reference: the difference equation in plain complex arithmetic
+  y, mag = [], []
+  for n in range(len(x)):
+    acc, m = 0j, 0.
+    for k, v in nzb.items():
+      t = v * (x[n - k] if n - k >= 0 else 0.)
+      acc += t
+      m += abs(t)
+    for k, v in nza.items():
+      if k:
+        prev = y[n - k] if n - k >= 0 else (0. if mem is None else mem[k - n - 1])
+        pm = mag[n - k] if n - k >= 0 else abs(prev)
+        acc -= v * prev
+        m += abs(v) * pm
+    y.append(acc / nza[0])
+    mag.append(m / abs(nza[0]))
+  if len(got) != len(x):
+    raise Violation("%d outputs for %d inputs" % (len(got), len(x)))
+  for n, (g, e) in enumerate(zip(got, y)):
+    if abs(g - e) > 1e-9 * (mag[n] + 1):
+      raise Violation("y[%d] = %r, expected %r (b=%r a=%r x=%r mem=%r)" % (n, g, e, nzb, nza, x, mem))
+  labels = []
+  if any(isinstance(v, complex) and abs(abs(v) - 1) < 1e-12 and v not in (1, -1) for k, v in nza.items() if k):
+    labels.append("unit-modulus complex feedback")
+  if any(isinstance(v, complex) and abs(abs(v) - 1) < 1e-12 and v not in (1, -1) for v in nzb.values()):
+    labels.append("unit-modulus complex feed-forward")
+  if isinstance(nza[0], complex):
+    labels.append("complex a0")
+  return {"nontrivial": lm >= 1 and len(x) > lm, "labels": labels or ["other"]}
+
+
 CLAUSES = [
   Clause("diffeq_exact", strat_exact, run_exact, quick=3500, thorough=80000,
          floors={"special-cased +-1 coefficient": .2, "sparse high delay": .05, "memory used": .2,
@@ -270,6 +390,12 @@ CLAUSES = [
   Clause("diffeq_fraction", strat_frac, run_frac, quick=1200, thorough=20000,
          floors={"float-evaluated Fraction": .4, "a0 non-dyadic Fraction": .1},
          doc="non-dyadic Fraction coefficients (code evaluates n/d in double): agreement within 1e-12 x magnitude"),
+  Clause("exact_twins", strat_twins, run_twins, quick=800, thorough=15000,
+         floors={"float twin first": .2, "big ints": .1},
+         doc="integer coefficients on plain Fractions / ints beyond 2**53 stay exact, also right after a value-equal float-spelled filter ran"),
+  Clause("complex_coefficients", strat_complex, run_complex, quick=800, thorough=15000,
+         floors={"unit-modulus complex feedback": .1, "complex a0": .1},
+         doc="complex coefficients (incl. modulus exactly 1) against the difference equation in complex arithmetic, tol 1e-9 x magnitude"),
   Clause("all_zero", strat_allzero, run_allzero, quick=500, thorough=5000,
          doc="the filter with no terms outputs the zero value once per input"),
   Clause("negative_delay", strat_noncausal, run_noncausal, quick=800, thorough=10000,
